@@ -45,6 +45,7 @@ TABLE = {
             {"driver": "batch", "required_clauses": ["dispatch-owed", "callback-legitimacy", "timer-fire"]},
             {"driver": "limit", "required_clauses": ["batch-limit"], "shards": 1, "replayable": False},
             {"driver": "manyready", "required_clauses": ["many-ready"], "shards": 1, "replayable": False},
+            {"driver": "lifecycle", "required_clauses": ["scripted-callback", "dispatch-end"]},
         ],
     },
     "C05": {
